@@ -9,6 +9,7 @@ to the Lean checker `Model.RA.check` (proved sound in Props/C06.lean:
 Python reference re-implementation below (instruction + the two values that
 collide + a path entry -> clobber -> read) and reported with ctx.fail.
 """
+import collections
 import io
 import json
 import time
@@ -127,6 +128,10 @@ class PhysTable:
 # --------------------------------------------------------------------------------------
 # capture
 # --------------------------------------------------------------------------------------
+class CaptureArtefact(Exception):
+    """the captured data is not in the shape the abstraction assumes (tooling problem, never a verdict)"""
+
+
 def snap(instructions):
     """snapshot: list of (ins, uses, defs, clobbers, ismove, jumps) with the operand objects of this moment"""
     return [(i, list(i.used_registers), list(i.defined_registers), list(i.clobbers), bool(i.ismove), list(i.jumps))
@@ -239,11 +244,19 @@ class Capture:
 # abstraction of a captured frame into Model.MCode terms
 # --------------------------------------------------------------------------------------
 class Numbering:
-    """dense ids for Register objects (by identity) and label ids for jump-target instructions"""
+    """dense ids for Register objects, jump-target instructions (labels) and instructions (sem), all by identity"""
 
     def __init__(self):
         self.vid = {}
         self.vobj = []
+        self.labs = {}
+        self.sems = {}
+
+    def lab(self, ins):
+        return self.labs.setdefault(id(ins), len(self.labs))
+
+    def sem(self, ins):
+        return self.sems.setdefault(id(ins), len(self.sems))
 
     def v(self, r):
         k = id(r)
@@ -253,26 +266,26 @@ class Numbering:
         return self.vid[k]
 
 
+def abstract_instr(t, num, is_target):
+    ins, uses, defs, clob, mv, jumps = t
+    u = [num.v(r) for r in uses]
+    d = [num.v(r) for r in defs]
+    wf_move = mv and len(u) == 1 and len(d) == 1 and not jumps and not clob
+    return {"uses": u, "defs": d, "clob": clob, "move": bool(wf_move), "jumps": [num.lab(j) for j in jumps],
+            "label": num.lab(ins) if is_target else None, "sem": num.sem(ins), "text": type(ins).__name__,
+            "declared_move": mv}
+
+
 def abstract_program(sn, num):
     """snapshot -> list of dicts (uses, defs, clobbers(objs), move, jumps(label ids), label, sem)"""
-    index = {id(t[0]): k for k, t in enumerate(sn)}
-    targets = {}
+    index = {id(t[0]) for t in sn}
+    targets = set()
     for t in sn:
         for j in t[5]:
             if id(j) not in index:
-                raise LookupError(f"jump target {j} of {t[0]} is not in the instruction list")
-            targets.setdefault(id(j), len(targets))
-    prog = []
-    for k, (ins, uses, defs, clob, mv, jumps) in enumerate(sn):
-        u = [num.v(r) for r in uses]
-        d = [num.v(r) for r in defs]
-        wf_move = mv and len(u) == 1 and len(d) == 1 and not jumps
-        prog.append({
-            "uses": u, "defs": d, "clob": clob, "move": bool(wf_move), "jumps": [targets[id(j)] for j in jumps],
-            "label": targets.get(id(ins)), "sem": k, "text": f"{type(ins).__name__}",
-            "declared_move": mv,
-        })
-    return prog
+                raise CaptureArtefact(f"jump target {j} of {t[0]} is not in the instruction list")
+            targets.add(id(j))
+    return [abstract_instr(t, num, id(t[0]) in targets) for t in sn]
 
 
 def succs(prog, labelpos, i):
@@ -316,8 +329,8 @@ def liveness(prog):
 # --------------------------------------------------------------------------------------
 # Python reference of Model.RA.check (used to LOCATE a rejection; the verdict is Lean's)
 # --------------------------------------------------------------------------------------
-def ref_check(prog, colour, ov, removed, live):
-    """returns list of problems (kind, index, detail)"""
+def ref_check(prog, colour, ov, removed, live, fixed=frozenset()):
+    """returns list of problems (kind, index, detail); mirrors Model.RA.check"""
     n = len(prog)
     lp = label_positions(prog)
     problems = []
@@ -325,10 +338,15 @@ def ref_check(prog, colour, ov, removed, live):
     def li(i):
         return live[i] if i < n else []
 
+    fx = sorted(fixed)
+    for a in range(len(fx)):
+        for b in range(a + 1, len(fx)):
+            if colour[fx[a]] == colour[fx[b]]:
+                problems.append(("fixed-names-share-register", 0, (fx[a], fx[b])))
     e = li(0)
     for a in range(len(e)):
         for b in range(a + 1, len(e)):
-            if e[a] != e[b] and ov(colour[e[a]], colour[e[b]]):
+            if e[a] != e[b] and ov(colour[e[a]], colour[e[b]]) and not (e[a] in fixed and e[b] in fixed):
                 problems.append(("entry-live-values-alias", 0, (e[a], e[b])))
     for i, ins in enumerate(prog):
         sc = succs(prog, lp, i)
@@ -340,35 +358,38 @@ def ref_check(prog, colour, ov, removed, live):
         for v in lo:
             if v not in ins["defs"] and v not in lin:
                 problems.append(("liveness-not-postfixpoint", i, v))
-        if removed[i]:
-            ok = ins["move"] and colour[ins["defs"][0]] == colour[ins["uses"][0]]
-            if not ok:
-                problems.append(("removed-instruction-not-identity-move", i, None))
-            continue
+        if ins["move"] and ins["clob"]:
+            problems.append(("move-with-clobbers", i, None))
+        rm = removed[i]
+        if rm and not (ins["move"] and colour[ins["defs"][0]] == colour[ins["uses"][0]]):
+            problems.append(("removed-instruction-not-identity-move", i, None))
         for v in lo:
             if v in ins["defs"]:
                 continue
             for d in ins["defs"]:
-                if ov(colour[d], colour[v]) and not (ins["move"] and ins["uses"] == [v] and colour[d] == colour[v]):
-                    problems.append(("def-clobbers-live", i, (d, v)))
-            for q in ins["clob"]:
-                if ov(q, colour[v]):
-                    problems.append(("clobber-hits-live", i, (q, v)))
-        ds = ins["defs"]
-        for a in range(len(ds)):
-            for b in range(a + 1, len(ds)):
-                if ov(colour[ds[a]], colour[ds[b]]):
-                    problems.append(("defs-alias-each-other", i, (ds[a], ds[b])))
+                if not ov(colour[d], colour[v]):
+                    continue
+                if ins["move"] and ins["uses"] == [v] and colour[d] == colour[v]:
+                    continue
+                if not rm and d in fixed and v in fixed:
+                    continue
+                problems.append(("def-clobbers-live", i, (d, v)))
+            if not rm and v not in fixed:
+                for q in ins["clob"]:
+                    if ov(q, colour[v]):
+                        problems.append(("clobber-hits-live", i, (q, v)))
+        if not rm:
+            ds = ins["defs"]
+            for a in range(len(ds)):
+                for b in range(a + 1, len(ds)):
+                    if ov(colour[ds[a]], colour[ds[b]]):
+                        problems.append(("defs-alias-each-other", i, (ds[a], ds[b])))
     return problems
 
 
 # --------------------------------------------------------------------------------------
 # frame -> abstract allocation problem
 # --------------------------------------------------------------------------------------
-class CaptureArtefact(Exception):
-    """the captured data is not in the shape the abstraction assumes (tooling problem, never a verdict)"""
-
-
 def build_alloc_case(rec, phys):
     """FrameRecord (after a successful alloc_frame) -> dict for the checker"""
     if rec.snapF is None or rec.final is None:
@@ -404,6 +425,7 @@ def build_alloc_case(rec, phys):
     pairs = phys.overlap_pairs()
     return {"prog": prog, "colour": colour, "removed": removed, "pairs": pairs, "nphys": len(phys.regs),
             "live": liveness(prog), "names": [r.name for r in num.vobj], "precoloured": pre_col,
+            "fixed": [v for v, f in enumerate(pre_col) if f],
             "pnames": [p.name for p in phys.regs], "num": num}
 
 
@@ -412,3 +434,475 @@ def make_ov(pairs):
     for p, q in pairs:
         s.add((p, q)); s.add((q, p))
     return lambda p, q: p == q or (p, q) in s
+
+
+# --------------------------------------------------------------------------------------
+# program generator (C): register pressure, calls with many arguments, loops, diamonds, mixed widths
+# --------------------------------------------------------------------------------------
+# C types per target for which ppci's front-end + instruction selector work (probed); None = no C route
+PALETTE = {
+    "x86_64": ["int", "long", "char", "unsigned char", "short", "unsigned short", "unsigned int", "unsigned long"],
+    "arm": ["int", "unsigned int"],
+    "riscv": ["int", "unsigned int", "char", "unsigned char"],
+    "riscv:rvc": ["int", "unsigned int", "char", "unsigned char"],
+    "or1k": ["int", "unsigned int"],
+    "microblaze": ["int", "unsigned int", "char"],
+}
+
+_ALLOPS = ["+", "-", "*", "&", "|", "^", "<<", ">>"]
+_ALLCMP = ["<", ">", "==", "!=", "<=", ">="]
+# IR features per target (probed with tiny programs; anything outside makes ppci's instruction selector give up,
+# which is C29's business, not C06's).  types[0] is the type used for comparisons / loop counters / result.
+IRFEAT = {
+    "x86_64": dict(types=["i64", "i32", "i16", "i8", "u64", "u32", "u16", "u8"], ops=_ALLOPS, cmps=_ALLCMP, calls=True, maxargs=9, maxparams=6, casts=True),
+    "arm": dict(types=["i32", "u32", "i8", "i16"], ops=_ALLOPS, cmps=_ALLCMP, calls=True, maxargs=6, maxparams=4, casts=True),
+    "arm:thumb": dict(types=["i32", "u32", "i8"], ops=_ALLOPS, cmps=["<", ">", "==", "!=", ">="], calls=True, maxargs=3, maxparams=3, casts=True),
+    "riscv": dict(types=["i32", "u32", "i8", "u8", "i16", "u16"], ops=_ALLOPS, cmps=_ALLCMP, calls=True, maxargs=8, maxparams=6, casts=True),
+    "riscv:rvc": dict(types=["i32", "u32", "i8", "u8", "i16", "u16"], ops=_ALLOPS, cmps=_ALLCMP, calls=True, maxargs=8, maxparams=6, casts=True),
+    "m68k": dict(types=["i32"], ops=["+", "-"], cmps=["<"], calls=False, maxargs=0, maxparams=4, casts=False, consts=False, loops=False),
+    "mips": dict(types=["i32", "u32"], ops=["+", "-", "*", "&", "|", "^", "<<", ">>"], cmps=_ALLCMP, calls=True, maxargs=3, maxparams=4, casts=True),
+    "msp430": dict(types=["i16", "u16", "i8", "u8"], ops=["+", "-", "*", "&", "|", "<<", ">>"], cmps=_ALLCMP, calls=True, maxargs=5, maxparams=4, casts=True),
+    "avr": dict(types=["i16", "u16", "i8", "u8"], ops=["+", "-", "*", "&", "|", "<<", ">>"], cmps=_ALLCMP, calls=True, maxargs=3, maxparams=3, casts=True),
+    "xtensa": dict(types=["i32", "u32"], ops=["+", "-", "*", "&", "|", "<<", ">>"], cmps=_ALLCMP, calls=True, maxargs=4, maxparams=4, casts=True),
+    "or1k": dict(types=["i32", "u32", "i8"], ops=["+", "-", "*", "&", "|", "<<", ">>"], cmps=_ALLCMP, calls=True, maxargs=6, maxparams=4, casts=True),
+    "microblaze": dict(types=["i32", "u32", "i8", "u8", "i16", "u16"], ops=_ALLOPS, cmps=_ALLCMP, calls=True, maxargs=6, maxparams=4, casts=True),
+}
+
+
+class CGen:
+    def __init__(self, rng, types, nvals, nblocks, ops=("+", "-", "*", "&", "|", "^")):
+        self.r = rng
+        self.types = types
+        self.nvals = nvals
+        self.nblocks = nblocks
+        self.ops = ops
+        self.lines = []
+
+    def ty(self):
+        return self.r.choice(self.types)
+
+    def atom(self, names):
+        if self.r.random() < 0.15:
+            return str(self.r.choice([1, 2, 3, 5, 7, 11, 100, 127]))
+        return self.r.choice(names)
+
+    def expr(self, names, depth=0):
+        k = self.r.random()
+        if depth >= 2 or k < 0.35:
+            return self.atom(names)
+        if k < 0.9:
+            return f"({self.expr(names, depth + 1)} {self.r.choice(self.ops)} {self.expr(names, depth + 1)})"
+        if k < 0.95:
+            return f"({self.ty()})({self.expr(names, depth + 1)})"
+        return f"({self.expr(names, depth + 1)} {self.r.choice(['<<', '>>'])} {self.r.choice([1, 2, 3])})"
+
+    def cond(self, names):
+        return f"{self.atom(names)} {self.r.choice(['<', '>', '==', '!=', '<=', '>='])} {self.atom(names)}"
+
+    def function(self, fname, externs):
+        r = self.r
+        nparams = r.randint(1, 7)
+        params = [(self.ty(), f"p{i}") for i in range(nparams)]
+        rty = self.ty()
+        out = [f"{rty} {fname}({', '.join(t + ' ' + n for t, n in params)}) {{"]
+        names = [n for _, n in params]
+        vals = []
+        for i in range(self.nvals):
+            t = self.ty()
+            out.append(f"  {t} v{i} = {self.expr(names)};")
+            names.append(f"v{i}")
+            vals.append(f"v{i}")
+        out.append("  int i;")
+        for b in range(self.nblocks):
+            k = r.random()
+            if k < 0.3 and externs:
+                en, ety, eargs = r.choice(externs)
+                args = ", ".join(self.atom(vals) for _ in eargs)
+                tgt = r.choice(vals)
+                out.append(f"  {tgt} = {tgt} + {en}({args});")
+            elif k < 0.6:
+                a, bb, c = r.choice(vals), r.choice(vals), r.choice(vals)
+                out.append(f"  for (i = 0; i < {r.choice(['p0', '3', a])}; i++) {{")
+                out.append(f"    {a} = {self.expr(vals)};")
+                if r.random() < 0.6:
+                    out.append(f"    if ({self.cond(vals)}) {{ {bb} = {self.expr(vals)}; }} else {{ {c} = {self.expr(vals)}; }}")
+                if r.random() < 0.3 and externs:
+                    en, ety, eargs = r.choice(externs)
+                    out.append(f"    {c} = {en}({', '.join(self.atom(vals) for _ in eargs)});")
+                out.append("  }")
+            elif k < 0.85:
+                a, bb = r.choice(vals), r.choice(vals)
+                out.append(f"  if ({self.cond(vals)}) {{ {a} = {self.expr(vals)}; {bb} = {a} + 1; }} else {{ {bb} = {self.expr(vals)}; }}")
+            else:
+                a = r.choice(vals)
+                out.append(f"  while ({a} > {self.atom(vals)}) {{ {a} = {a} - {r.choice(['1', '3'])}; {r.choice(vals)} ^= {a}; }}")
+        out.append("  return " + " + ".join(vals) + ";")
+        out.append("}")
+        return "\n".join(out)
+
+    def program(self, nfuncs):
+        r = self.r
+        externs = []
+        decls = []
+        for e in range(r.randint(1, 3)):
+            n = r.choice([1, 2, 4, 6, 8, 9])
+            at = [self.ty() for _ in range(n)]
+            rt = self.ty()
+            externs.append((f"ext{e}", rt, at))
+            decls.append(f"{rt} ext{e}({', '.join(t + ' a' + str(i) for i, t in enumerate(at))});")
+        funcs = [self.function(f"fn{i}", externs) for i in range(nfuncs)]
+        return "\n".join(decls + funcs) + "\n"
+
+
+CORPUS = [
+    # fixed programs that always run first
+    ("pressure-call-loop", """
+int g(int a, int b, int c, int d, int e, int f, int h, int i);
+int f1(int a, int b, int c, int d, int e, int f) {
+  int v0 = a*b, v1 = b*c, v2 = c*d, v3 = d*e, v4 = e*f, v5 = f*a, v6 = a+c, v7 = b+d, v8 = c+e, v9 = d+f;
+  int v10 = a-b, v11 = b-c, v12 = c-d, v13 = d-e, v14 = e-f, v15 = a^f, v16 = b^e, v17 = c&d;
+  int r = g(v0, v1, v2, v3, v4, v5, v6, v7);
+  int i;
+  for (i = 0; i < a; i++) { r += v8 * i; v9 = v9 + v10; if (r > v11) { v12 = v12 + 1; } else { v13 = v13 ^ r; } }
+  return r + v0 + v1 + v2 + v3 + v4 + v5 + v6 + v7 + v8 + v9 + v10 + v11 + v12 + v13 + v14 + v15 + v16 + v17;
+}
+"""),
+    ("mixed-width", """
+int h2(int a, char b, char c);
+char f2(char a, char b, int c, unsigned char d, unsigned char e) {
+  char x = a + d; char y = b * e; int z = c - d;
+  unsigned char u = a ^ b; unsigned char w = y + x;
+  if (x > y) { z = h2(z, x, y) + u; x = x + 1; } else { y = y - 1; }
+  while (z > 0) { z = z - w; x = x ^ u; y += x; }
+  return x + y + z + u + w;
+}
+"""),
+]
+
+
+# --------------------------------------------------------------------------------------
+# program generator (IR, built with the ir classes directly; used on every target, the only
+# route on avr where the C front-end cannot be instantiated)
+# --------------------------------------------------------------------------------------
+class IRGen:
+    """feat: dict(types=[ir type names], ops=[...], cmps=[...], calls=bool, maxargs=int, casts=bool)"""
+
+    def __init__(self, rng, feat):
+        from ppci import ir
+        self.ir = ir
+        self.r = rng
+        self.feat = feat
+        self.types = [getattr(ir, t) for t in feat["types"]]
+        self.n = 0
+
+    def name(self, p="t"):
+        self.n += 1
+        return f"{p}{self.n}"
+
+    def emit(self, ins):
+        self.block.add_instruction(ins)
+        return ins
+
+    def new_block(self):
+        b = self.ir.Block(self.name("blk"))
+        self.func.add_block(b)
+        return b
+
+    def const(self, v, ty):
+        return self.emit(self.ir.Const(v, self.name("c"), ty))
+
+    def conv(self, v, ty):
+        if v.ty is ty:
+            return v
+        main = self.types[0]
+        if v.ty is not main and ty is not main and v.ty.size != ty.size:
+            v = self.emit(self.ir.Cast(v, self.name("cast"), main))      # small <-> small goes through the main type
+        return self.emit(self.ir.Cast(v, self.name("cast"), ty))
+
+    def pick_same(self, vals, ty):
+        c = [v for v in vals if v.ty is ty]
+        return self.r.choice(c) if c else None
+
+    def operand(self, vals, ty):
+        r = self.r
+        if r.random() < 0.12 and self.feat.get("consts", True):
+            return self.const(r.choice([1, 2, 3, 5, 7, 11, 100]), ty)
+        v = self.pick_same(vals, ty)
+        if v is not None and (r.random() < 0.7 or not self.feat.get("casts", True)):
+            return v
+        if self.feat.get("casts", True):
+            return self.conv(r.choice(vals), ty)
+        if v is not None:
+            return v
+        return self.const(r.choice([1, 2, 3]), ty)
+
+    def binop(self, vals, ty):
+        a = self.operand(vals, ty)
+        b = self.operand(vals, ty)
+        wide = ty.size == self.types[0].size
+        op = self.r.choice(self.feat["ops"] if wide else self.feat.get("small_ops", ["+", "-"]))
+        if op in ("<<", ">>"):
+            b = self.const(self.r.choice([1, 2, 3]), ty)
+        return self.emit(self.ir.Binop(a, op, b, self.name("v"), ty))
+
+    def seg_straight(self, vals):
+        for _ in range(self.r.randint(1, 4)):
+            i = self.r.randrange(len(vals))
+            vals[i] = self.binop(vals, vals[i].ty)
+
+    def seg_call(self, vals):
+        ext = self.r.choice(self.exts)
+        args = [self.operand(vals, t) for t in ext.argument_types]
+        res = self.emit(self.ir.FunctionCall(ext, args, self.name("res"), ext.return_ty))
+        i = self.r.randrange(len(vals))
+        ty = vals[i].ty
+        if res.ty is ty or self.feat.get("casts", True):
+            a = self.conv(res, ty)
+            vals[i] = self.emit(self.ir.Binop(vals[i], "+", a, self.name("v"), ty))
+
+    def seg_diamond(self, vals):
+        ir, r = self.ir, self.r
+        ty = self.types[0]
+        a, b = self.operand(vals, ty), self.operand(vals, ty)
+        yes, no, join = self.new_block(), self.new_block(), self.new_block()
+        self.emit(ir.CJump(a, r.choice(self.feat["cmps"]), b, yes, no))
+        idx = r.sample(range(len(vals)), min(len(vals), r.randint(1, 3)))
+        outs = []
+        for blk in (yes, no):
+            self.block = blk
+            v2 = list(vals)
+            for i in idx:
+                if r.random() < 0.8:
+                    v2[i] = self.binop(v2, v2[i].ty)
+            if self.exts and r.random() < 0.25:
+                self.seg_call(v2)
+            self.emit(ir.Jump(join))
+            outs.append((self.block, v2))
+        self.block = join
+        for i in range(len(vals)):
+            x, y = outs[0][1][i], outs[1][1][i]
+            if x is y:
+                vals[i] = x
+            else:
+                phi = self.emit(ir.Phi(self.name("phi"), vals[i].ty))
+                phi.set_incoming(outs[0][0], x)
+                phi.set_incoming(outs[1][0], y)
+                vals[i] = phi
+
+    def seg_loop(self, vals):
+        ir, r = self.ir, self.r
+        ty = self.types[0]
+        pre = self.block
+        zero = self.const(0, ty)
+        bound = self.operand(vals, ty) if r.random() < 0.6 else self.const(r.choice([2, 3, 5]), ty)
+        one = self.const(1, ty)
+        head, body, exit_ = self.new_block(), self.new_block(), self.new_block()
+        self.emit(ir.Jump(head))
+        self.block = head
+        cnt = self.emit(ir.Phi(self.name("i"), ty))
+        cnt.set_incoming(pre, zero)
+        idx = r.sample(range(len(vals)), min(len(vals), r.randint(1, 4)))
+        phis = {}
+        for i in idx:
+            phi = self.emit(ir.Phi(self.name("lp"), vals[i].ty))
+            phi.set_incoming(pre, vals[i])
+            phis[i] = phi
+            vals[i] = phi
+        self.emit(ir.CJump(cnt, "<", bound, body, exit_))
+        self.block = body
+        v2 = list(vals)
+        for i in idx:
+            v2[i] = self.binop(v2, v2[i].ty)
+        if r.random() < 0.4:
+            self.seg_diamond(v2)
+        if self.exts and r.random() < 0.3:
+            self.seg_call(v2)
+        nxt = self.emit(ir.Binop(cnt, "+", one, self.name("inc"), ty))
+        self.emit(ir.Jump(head))
+        for i in idx:
+            phis[i].set_incoming(self.block, v2[i])
+        cnt.set_incoming(self.block, nxt)
+        self.block = exit_
+
+    def module(self, nvals, nsegs, nfuncs=1):
+        ir, r = self.ir, self.r
+        m = ir.Module("gen")
+        self.exts = []
+        if self.feat.get("calls", True):
+            for e in range(r.randint(1, 2)):
+                n = r.randint(1, self.feat.get("maxargs", 6))
+                ext = ir.ExternalFunction(f"ext{e}", [r.choice(self.types) for _ in range(n)], r.choice(self.types))
+                m.add_external(ext)
+                self.exts.append(ext)
+        for k in range(nfuncs):
+            rty = self.types[0]
+            f = ir.Function(f"irfn{k}", ir.Binding.GLOBAL, rty)
+            m.add_function(f)
+            self.func = f
+            params = []
+            for i in range(r.randint(1, self.feat.get("maxparams", 4))):
+                p = ir.Parameter(f"p{i}", r.choice(self.types))
+                f.add_parameter(p)
+                params.append(p)
+            self.block = self.new_block()
+            f.entry = self.block
+            vals = []
+            for i in range(nvals):
+                ty = r.choice(self.types) if r.random() < 0.5 else self.types[0]
+                vals.append(self.binop(params + vals, ty))
+            for s in range(nsegs):
+                k2 = r.random()
+                if k2 < 0.3:
+                    self.seg_straight(vals)
+                elif k2 < 0.5 and self.exts:
+                    self.seg_call(vals)
+                elif k2 < 0.75 or not self.feat.get("loops", True):
+                    self.seg_diamond(vals)
+                else:
+                    self.seg_loop(vals)
+            acc = self.conv(vals[0], rty) if self.feat.get("casts", True) or vals[0].ty is rty else self.const(0, rty)
+            for v in vals[1:]:
+                if v.ty is rty or self.feat.get("casts", True):
+                    acc = self.emit(ir.Binop(acc, "+", self.conv(v, rty), self.name("acc"), rty))
+            self.emit(ir.Return(acc))
+        return m
+
+
+# --------------------------------------------------------------------------------------
+# one rewrite_program call -> abstract spill step
+# --------------------------------------------------------------------------------------
+class SpillShape(Exception):
+    """the rewrite does not have the shape 'load fresh before use / store fresh after def'"""
+
+    def __init__(self, kind, what):
+        super().__init__(what)
+        self.kind = kind
+
+
+def build_spill_case(rw, phys):
+    num = Numbering()
+    pre, post = rw["pre"], rw["post"]
+    temps = rw["temps"]
+    tset = {id(t) for t in temps}
+    pre_ids = {id(t[0]): k for k, t in enumerate(pre)}
+    post_ids = {id(t[0]): k for k, t in enumerate(post)}
+    group_of = {}
+    for gi, (kind, code, vreg, slot) in enumerate(rw["groups"]):
+        for ins in code:
+            group_of[id(ins)] = gi
+    for k in pre_ids:
+        if k not in post_ids:
+            raise SpillShape("instruction-lost", "an instruction of the list disappeared during the spill rewrite")
+    # jump targets (shared between pre and post)
+    targets = set()
+    for t in pre:
+        for j in t[5]:
+            targets.add(id(j))
+    for t in post:
+        for j in t[5]:
+            if id(j) not in post_ids:
+                raise CaptureArtefact("jump target outside the list")
+            if id(t[0]) in group_of:
+                raise SpillShape("spill-code-jumps", "spill code contains a jump")
+    pre_abs = [abstract_instr(t, num, id(t[0]) in targets) for t in pre]
+    for a in pre_abs:
+        a["clob"] = [phys.add(q) for q in a["clob"]]
+    # plan: per pre instruction the (temp, fresh) pairs in ppci's processing order (= iteration order of node.temps)
+    fresh = []
+    plans = []
+    for k, t in enumerate(pre):
+        q = post[post_ids[id(t[0])]]
+        if len(q[1]) != len(t[1]) or len(q[2]) != len(t[2]):
+            raise SpillShape("operand-count-changed", f"operand lists of {t[0]} changed length")
+        rep = {}
+        for old, new in list(zip(t[1], q[1])) + list(zip(t[2], q[2])):
+            if old is not new:
+                if id(old) in rep and rep[id(old)] is not new:
+                    raise SpillShape("inconsistent-rename", f"{old} renamed to two registers in {t[0]}")
+                rep[id(old)] = new
+        plan = []
+        for tmp in temps:
+            if id(tmp) in rep:
+                plan.append((num.v(tmp), num.v(rep[id(tmp)])))
+                fresh.append(num.v(rep[id(tmp)]))
+        for k2 in rep:
+            if k2 not in tset:
+                raise SpillShape("renamed-foreign-register", f"a register outside the spilled node was renamed in {t[0]}")
+        plans.append(plan)
+    # abstract post list
+    post_words = []
+    i = 0
+    used_outside = collections.Counter()
+    for t in post:
+        if id(t[0]) not in group_of:
+            for r in t[1] + t[2]:
+                used_outside[id(r)] += 1
+    while i < len(post):
+        t = post[i]
+        gi = group_of.get(id(t[0]))
+        if gi is None:
+            if id(t[0]) not in pre_ids:
+                raise SpillShape("unknown-instruction-inserted", f"{t[0]} was inserted but is not spill code")
+            a = abstract_instr(t, num, id(t[0]) in targets)
+            a["clob"] = [phys.add(q) for q in a["clob"]]
+            post_words.append(("I", a))
+            i += 1
+            continue
+        kind, code, vreg, slot = rw["groups"][gi]
+        for k, ins in enumerate(code):
+            if i + k >= len(post) or post[i + k][0] is not ins:
+                raise SpillShape("spill-code-not-contiguous", f"{kind} code for {vreg} is not contiguous in the list")
+        seg = post[i:i + len(code)]
+        alld = [r for x in seg for r in x[2]]
+        allu = [r for x in seg for r in x[1]]
+        if kind == "load":
+            if not any(r is vreg for r in alld):
+                raise SpillShape("load-does-not-define-fresh", f"load code does not define {vreg}")
+        else:
+            if not any(r is vreg for r in allu) or any(r is vreg for r in alld):
+                raise SpillShape("store-does-not-read-fresh", f"store code does not read {vreg}")
+        for r in alld + allu:
+            if r is vreg:
+                continue
+            if r._num is not None:
+                if any(r is x for x in alld):
+                    raise SpillShape("spill-code-writes-physical-register", f"{kind} code for {vreg} writes {r}")
+                continue
+            if used_outside[id(r)]:
+                raise SpillShape("spill-code-temp-leaks", f"{kind} code for {vreg} uses {r} which also occurs outside")
+        if slot is not rw["slot"]:
+            raise SpillShape("several-slots", "one rewrite used two different slots")
+        post_words.append(("L" if kind == "load" else "S", num.v(vreg)))
+        i += len(code)
+    live = liveness(pre_abs)
+    return {"pre": pre_abs, "post": post_words, "temps": [num.v(t) for t in temps], "fresh": sorted(set(fresh)),
+            "plans": plans, "live": live, "num": num}
+
+
+# --------------------------------------------------------------------------------------
+# serialisation (see lean/Drivers/C06.lean)
+# --------------------------------------------------------------------------------------
+def csv(xs):
+    return ",".join(str(x) for x in xs)
+
+
+def instr_word(a, live=(), plan=None):
+    w = ";".join([csv(a["uses"]), csv(a["defs"]), csv(a["clob"]), csv(a["jumps"]), "1" if a["move"] else "0",
+                  "-" if a["label"] is None else str(a["label"]), str(a["sem"]), csv(live)])
+    if plan is not None:
+        w += ";" + ",".join(f"{t}:{f}" for t, f in plan)
+    return w
+
+
+def alloc_line(case):
+    return " ".join(["check", "A=" + ",".join(f"{p}:{q}" for p, q in case["pairs"]), "C=" + csv(case["colour"]),
+                     "X=" + csv(case["fixed"]), "R=" + csv([i for i, r in enumerate(case["removed"]) if r])]
+                    + [instr_word(a, case["live"][i]) for i, a in enumerate(case["prog"])])
+
+
+def spill_line(sc):
+    words = ["spill", "T=" + csv(sc["temps"]), "F=" + csv(sc["fresh"]), f"N={len(sc['pre'])}"]
+    words += [instr_word(a, sc["live"][i], sc["plans"][i]) for i, a in enumerate(sc["pre"])]
+    for k, x in sc["post"]:
+        words.append(k + (instr_word(x) if k == "I" else str(x)))
+    return " ".join(words)
